@@ -327,6 +327,11 @@ func (c *vacCase) run() {
 		// beyond what int64 nanoseconds can express (F45)
 		cutoff = gen.Pick(c.r, []time.Time{time.Date(2300, 1, 1, 0, 0, 0, 0, time.UTC), time.Date(9999, 12, 31, 23, 59, 59, 0, time.UTC), time.Date(1000, 1, 1, 0, 0, 0, 0, time.UTC), time.Date(2262, 4, 12, 0, 0, 0, 0, time.UTC)})
 		c.st.Count("cutoff_out_of_int64_range")
+	case pick == 5 && len(snaps) > 0 && c.r.Chance(1, 2):
+		// exactly the creation time of a recorded version, to the nanosecond: "created at or after the
+		// cutoff" includes "at" (seeded change C09d turned the version's own test into "after")
+		cutoff = snaps[c.r.Intn(len(snaps))].at
+		c.st.Count("cutoff_exactly_a_version_creation_time")
 	default:
 		cutoff = gen.Pick(c.r, marks)
 		c.st.Count("cutoff_between")
@@ -675,7 +680,7 @@ func vacCmd(args []string) int {
 	fs.Parse(args)
 	setKnown(*kn)
 	st := NewStats("vac", *seed)
-	st.Rule = "histories of 4-18 steps by 1-2 writers (inserts, deletes, insert-then-delete and update-and-back so that old and new versions share content-addressed nodes, delete-then-re-insert, multi-row transactions, merging refreshes; entries_per_node in {2,4,4096}, node_cache_entries in {0,16,1000}), then s3db.Vacuum from an old or a new connection with a cutoff in the past, in the future, outside the range of int64 nanoseconds (years 1000, 2262, 2300, 9999), or at one of the instants recorded between the steps; the vacuuming connection is new, a refreshed writer, the only writer unrefreshed, or a stale writer that has not seen the other writer's versions; one vacuum in five runs inside a transaction that changed nothing and is rolled back afterwards; checks: rows unchanged through the vacuuming and a fresh connection, no version object in root/current or root/merged reaches a missing node, exactly the delete markers older than the cutoff are gone and every other entry is byte-for-byte as before, future cutoff leaves no superseded version, every version created at or after the cutoff re-reads exactly as it did, a repeated vacuum changes nothing, a further vacuum with a cutoff in the future leaves rows and reachability intact, the table stays writable, every single storage fault inside vacuum (a failing PUT/DELETE, or a failing GET/LIST) with the same connection used afterwards, and EVERY crash point inside vacuum (restore, crash after k mutations, re-open; after every third crash point a complete vacuum from a new connection, which must succeed and change nothing); distinct = distinct history (all non-trivial)"
+	st.Rule = "histories of 4-18 steps by 1-2 writers (inserts, deletes, insert-then-delete and update-and-back so that old and new versions share content-addressed nodes, delete-then-re-insert, multi-row transactions, merging refreshes; entries_per_node in {2,4,4096}, node_cache_entries in {0,16,1000}), then s3db.Vacuum from an old or a new connection with a cutoff in the past, in the future, outside the range of int64 nanoseconds (years 1000, 2262, 2300, 9999), at one of the instants recorded between the steps, or exactly at the creation time of a recorded version; the vacuuming connection is new, a refreshed writer, the only writer unrefreshed, or a stale writer that has not seen the other writer's versions; one vacuum in five runs inside a transaction that changed nothing and is rolled back afterwards; checks: rows unchanged through the vacuuming and a fresh connection, no version object in root/current or root/merged reaches a missing node, exactly the delete markers older than the cutoff are gone and every other entry is byte-for-byte as before, future cutoff leaves no superseded version, every version created at or after the cutoff re-reads exactly as it did, a repeated vacuum changes nothing, a further vacuum with a cutoff in the future leaves rows and reachability intact, the table stays writable, every single storage fault inside vacuum (a failing PUT/DELETE, or a failing GET/LIST) with the same connection used afterwards, and EVERY crash point inside vacuum (restore, crash after k mutations, re-open; after every third crash point a complete vacuum from a new connection, which must succeed and change nothing); distinct = distinct history (all non-trivial)"
 	isChild, from, to := childRange()
 	if !isChild {
 		NewEmitter(*outp+".ops", *outp+".exp").Close()
